@@ -691,8 +691,10 @@ class ManifestRecursiveLoader:
 
         with MultiprocessingPoolWrapper(self.max_jobs) as pool:
             # verify the directories in parallel
-            ret = all(pool.imap_unordered(
-                verifier, _walk_directory(it), chunksize=64))
+            # NB: consume all results before reducing, all() would stop
+            # scanning directories at the first failure otherwise
+            ret = all(list(pool.imap_unordered(
+                verifier, _walk_directory(it), chunksize=64)))
 
             # check for missing directories
             for relpath, dirdict in entry_dict.items():
